@@ -120,6 +120,9 @@ func c14PopRun(a c14Pop) caseResult {
 type c14Fri struct {
 	Base     string `json:"base"`
 	Response string `json:"response"`
+	// difficulty of another FRI chip created first on the same API (nil: none), as in a circuit that verifies
+	// proofs of two inner circuits; the chip under test must still enforce its own difficulty
+	FirstChipBits *uint64 `json:"first_chip_pow_bits,omitempty"`
 }
 
 type friCircuit struct {
@@ -131,9 +134,16 @@ type friCircuit struct {
 	Pow     frontend.Variable
 	Indices []frontend.Variable
 	CD      types.CommonCircuitData `gnark:"-"`
+	Warm    *uint64                 `gnark:"-"`
 }
 
 func (c *friCircuit) Define(api frontend.API) error {
+	if c.Warm != nil {
+		cd0 := c.CD
+		cd0.Config.FriConfig.ProofOfWorkBits = *c.Warm
+		cd0.FriParams.Config.ProofOfWorkBits = *c.Warm
+		_ = fri.NewChip(api, &cd0, &cd0.FriParams)
+	}
 	cd := c.CD
 	chip := fri.NewChip(api, &cd, &cd.FriParams)
 	ch := &variables.FriChallenges{FriAlpha: qev(c.Alpha[0], c.Alpha[1]), FriPowResponse: glv(c.Pow)}
@@ -152,7 +162,7 @@ func c14FriRun(a c14Fri) caseResult {
 	ch := in.Challenges()
 	mk := func() *friCircuit {
 		vc := in.Circuit()
-		f := &friCircuit{Proof: vc.Proof, VD: vc.VerifierData, CD: in.CD}
+		f := &friCircuit{Proof: vc.Proof, VD: vc.VerifierData, CD: in.CD, Warm: a.FirstChipBits}
 		f.Zeta = [2]frontend.Variable{ch.Zeta[0], ch.Zeta[1]}
 		f.Alpha = [2]frontend.Variable{ch.FriAlpha[0], ch.FriAlpha[1]}
 		for _, b := range ch.FriBetas {
@@ -208,7 +218,7 @@ func TestC14(t *testing.T) {
 	s := newSuite("C14")
 	r := s.r
 	defer r.Flush()
-	r.Rule("(a) assertLeadingZeros through its export hook: response in {2^(64-b)-1, 2^(64-b), 2^(64-b)+1, p-1, 0, random of every bit length} x difficulty b in 1..63 (native, plain, forced-bits flavours) and b in {16,32,48} under the padded commit flavour; accept <=> response < 2^(64-b); the same check compiled with gnark's R1CS and SCS builders under the commit range checker (and behind a thin native-range-checker wrapper, difficulties 1..63) inside circuits with 0..57000 further Goldilocks range checks (circuits the chip refuses are trivial cases; circuits that compile must be exact at 2^(64-b)-1, 2^(64-b), 2^(64-b)+1, 2^(64-b+j); one size per geometric bucket of ratio 1.2 (thorough 1.03) and builder).  (b) exported VerifyFriProof on one-round prefixes of real proofs with all challenges supplied by the reference and only the PoW response replaced.  (c) PoW witness substituted into real transcripts: the response is recomputed in circuit (GetChallenges) and checked at a drawn difficulty; witnesses are drawn at random and ground natively until the reference response has the required zeros, so both verdicts occur; accept <=> reference response of the supplied witness has >= b leading zeros.  Non-trivial = every case; distinct = (response|witness, difficulty, flavour).")
+	r.Rule("(a) assertLeadingZeros through its export hook: response in {2^(64-b)-1, 2^(64-b), 2^(64-b)+1, p-1, 0, random of every bit length} x difficulty b in 1..63 (native, plain, forced-bits flavours) and b in {16,32,48} under the padded commit flavour; accept <=> response < 2^(64-b); the same check compiled with gnark's R1CS and SCS builders under the commit range checker (and behind a thin native-range-checker wrapper, difficulties 1..63) inside circuits with 0..57000 further Goldilocks range checks (circuits the chip refuses are trivial cases; circuits that compile must be exact at 2^(64-b)-1, 2^(64-b), 2^(64-b)+1, 2^(64-b+j); one size per geometric bucket of ratio 1.2 (thorough 1.03) and builder).  (b) exported VerifyFriProof on one-round prefixes of real proofs with all challenges supplied by the reference and only the PoW response replaced.  (c) PoW witness substituted into real transcripts: the response is recomputed in circuit (GetChallenges) and checked at a drawn difficulty; witnesses are drawn at random and ground natively until the reference response has the required zeros, so both verdicts occur; accept <=> reference response of the supplied witness has >= b leading zeros.  Half of the VerifyFriProof cases create an FRI chip for a description with another difficulty (0, 1, 8, 15, 20, 32) on the same API first; the chip under test must still enforce its own difficulty.  Non-trivial = every case; distinct = (response|witness, difficulty, flavour).")
 	r.Assume("reference transcript (C11)")
 	s.on("lz", func(b json.RawMessage) caseResult { return c14LzRun(unmarshal[c14Lz](b)) })
 	s.on("fri", func(b json.RawMessage) caseResult { return c14FriRun(unmarshal[c14Fri](b)) })
@@ -301,7 +311,12 @@ func TestC14(t *testing.T) {
 		if resp.Cmp(bigP) >= 0 {
 			resp.Sub(resp, bigP)
 		}
-		s.exec(rt, "fri", c14Fri{b, resp.String()}, "VerifyFriProof/response-replaced")
+		a, class := c14Fri{Base: b, Response: resp.String()}, "VerifyFriProof/response-replaced"
+		if rapid.Bool().Draw(rt, "other_chip_first") {
+			w := rapid.SampledFrom([]uint64{0, 1, 8, 15, 20, 32}).Draw(rt, "first_chip_bits")
+			a.FirstChipBits, class = &w, "VerifyFriProof/response-replaced/after-a-chip-of-another-difficulty"
+		}
+		s.exec(rt, "fri", a, class)
 	})
 	rapidCheck(t, "wit", tierN(70, 2500), func(rt *rapid.T) {
 		base := rapid.SampledFrom(corp.Names).Draw(rt, "base")
